@@ -23,6 +23,7 @@ CONSTANTS Alphabet,    \* characters that may be appended one at a time
           MaxLen,      \* bound on the number of single characters
           Blocks,      \* sequences of characters appended as a whole (may be {})
           MaxBlocks,
+          BlockAfter,  \* a first block may follow at most this many single characters
           Dump
 
 
@@ -30,6 +31,7 @@ CONSTANTS Alphabet,    \* characters that may be appended one at a time
 IntAlphabet   == {"0", "1", "7", "9", "a", "f", "x", "o", "b", "_", "X", "O", "B"}
 FloatAlphabet == {"0", "1", "5", "9", "_", ".", "e", "E", "+", "-", "j", "J"}
 BigAlphabet   == {"0", "1", "9", "x", "o", "b", "X", "_"}
+QuickAlphabet == IntAlphabet \cup FloatAlphabet
 NoBlocks      == {}
 BigBlocks     == { <<"f", "f", "f", "f", "_", "F", "F", "F", "F">>, <<"0", "0", "0", "0", "0", "0", "0">>,
                    <<"1", "2", "3", "4", "5", "6", "7">>, <<"9", "9", "9", "9", "9", "9", "9", "9", "9">>,
@@ -212,7 +214,7 @@ Dot        == st \in {"S", "Z", "ZZ", "D", "LZ"} /\ AppendClass({"."})
 Exponent   == st \notin {"PX", "PX_", "HX", "HX_"} /\ AppendClass({"e", "E"})
 ExpSign    == st = "E" /\ AppendClass({"+", "-"})
 Imag       == st # "S" /\ AppendClass({"j", "J"})
-Block      == /\ nblk < MaxBlocks
+Block      == /\ nblk < MaxBlocks /\ (nblk > 0 \/ nch <= BlockAfter)
               /\ \E b \in Blocks : /\ Run(st, b) # Rej
                                    /\ text' = text \o b /\ st' = Run(st, b)
               /\ nblk' = nblk + 1 /\ UNCHANGED nch
@@ -238,6 +240,15 @@ CLiteralOK == (K = "int" /\ Len(RefInt(text)) <= 2) =>
 UnderscoreNeutral == K \in {"int", "float", "imag"} =>
                         Kind(Run("S", NoUnderscore(text)), NoUnderscore(text)) = K
 
+(* An imaginary literal whose integer digit part has a leading zero, a non-zero digit and an underscore *)
+(* ("05_1j") is valid Python; Cython's lexer (Lexicon.imagconst = (intconst | fltconst) + j) does not   *)
+(* accept it.  That is a rejected program, not a wrong value: the class is flagged and not replayed.    *)
+LeadingZeroUnderscoreImag ==
+  /\ K = "imag" /\ text[1] = "0"
+  /\ \E i \in 1..Len(text) : text[i] = "_"
+  /\ \E i \in 1..Len(text) : text[i] \in (DecDigits \ {"0"})
+  /\ \A i \in 1..Len(text) : text[i] \notin {".", "e", "E"}
+
 RECURSIVE Join(_)
 Join(cs) == IF cs = <<>> THEN "" ELSE Head(cs) \o Join(Tail(cs))
 
@@ -245,8 +256,9 @@ Publish == (Dump /\ K # "none") =>
              PrintT("@@" \o ToJson(
                IF K = "int"
                THEN [text |-> Join(text), kind |-> K, base |-> RefBase(text), limbs |-> RefInt(text),
-                     mant |-> "", exp10 |-> 0, st |-> st,
+                     mant |-> "", exp10 |-> 0, st |-> st, lzu |-> FALSE,
                      cl |-> IF Len(RefInt(text)) <= 2 THEN Join(CIntegerString(NoUnderscore(text), Small(RefInt(text)))) ELSE ""]
                ELSE [text |-> Join(text), kind |-> K, base |-> 10, limbs |-> <<>>,
-                     mant |-> Join(RefFloat(text).mant), exp10 |-> RefFloat(text).exp10, st |-> st, cl |-> ""]))
+                     mant |-> Join(RefFloat(text).mant), exp10 |-> RefFloat(text).exp10, st |-> st,
+                     lzu |-> LeadingZeroUnderscoreImag, cl |-> ""]))
 =============================================================================
